@@ -1,7 +1,9 @@
 (* C06 model: quill/src/remapper.rs — the descriptor scanner `map_desc`, the class table of
    `Mappings::remapper_a`, the per-class member tables of `Mappings::remapper_b`, the recursive
-   super-class search of `BRemapperImpl::map_field_fail / map_method_fail` (after the repair
-   "fix: search super types of an owner that has no mapping entry"), the identity fall-backs of
+   super-class search of `BRemapperImpl::map_field_fail / map_method_fail` (after the repairs
+   "fix: search super types of an owner that has no mapping entry", "fix: cyclic inheritance
+   information is an error for the remapper instead of an endless recursion" and "fix: the remapper
+   searches a class once per query"), the identity fall-backs of
    the default trait methods and the `*_ref` / `map_class_any` wrappers.
    Definitions only; proofs are in Theory*.v.  Descriptor types and printers come from C18. *)
 From FB Require Export Base.Str Base.Run Quill.Mappings C18.Model.
@@ -165,22 +167,82 @@ Fixpoint first_some (g : str -> res (option key)) (ss : list str) : res (option 
       end
   end.
 
-(* map_field_fail / map_method_fail ([sel] picks the table).  Recursion over the user-supplied
-   graph: explicit fuel, out of fuel = Err (the Rust code recurses without bound on a cycle). *)
-Fixpoint map_member_fail (sel : bclass -> mtable) (fuel : nat) (R : bremap) (I : inh)
-         (owner : str) (k : key) : res (option key) :=
+(* The search WITHOUT the memo of finished owners: the code after the first repair ("cyclic inheritance
+   information is an error"), kept as the specification of the search below (Theory2:
+   map_member_fail_eq_p).  [path] holds the classes whose super types are being searched right now;
+   meeting one of them again is Err, checked BEFORE the owner's table is looked at. *)
+Fixpoint map_member_fail_p (sel : bclass -> mtable) (fuel : nat) (R : bremap) (I : inh)
+         (path : list str) (owner : str) (k : key) : res (option key) :=
   match fuel with
   | O => Err
   | S f =>
+      if existsb (str_eqb owner) path then Err
+      else
       match declared sel R owner k with
       | Some v => Ok (Some v)
       | None =>
           match supers I owner with
-          | Some ss => first_some (fun s => map_member_fail sel f R I s k) ss
+          | Some ss => first_some (fun s => map_member_fail_p sel f R I (owner :: path) s k) ss
           | None => Ok None
           end
       end
   end.
+
+(* map_field_fail / map_method_fail = map_field_fail_in / map_method_fail_in with an empty path and an
+   empty set of finished owners ([sel] picks the table), after the second repair ("a class is searched
+   once per query").
+     path    the classes whose super types are being searched right now (the Rust Vec is pushed at the
+             back, here at the front: only membership is asked); meeting one of them again is
+             `bail!("cyclic inheritance …")` = Bail, checked first
+     failed  the classes whose search finished with "nothing found" during this query (the key is fixed
+             during a query): such a class answers "nothing found" at once, checked second
+   then the owner's table; then, only when the provider has an entry for the owner, the owner is pushed
+   on the path, the super types are searched in declaration order (`?` propagates a Bail through every
+   level, a hit returns through every level) and the owner is popped; an owner under which nothing was
+   found is added to [failed].  The set of finished owners is threaded through the whole traversal.
+   Recursion over the user-supplied graph: explicit fuel, out of fuel = Bail; the default fuel never
+   runs out, for ANY provider, cyclic or not (Theory5: fuel_never_runs_out). *)
+Inductive outcome := Found (v : key) | Bail | NotFound (failed : list str).
+
+Fixpoint fold_st (g : list str -> str -> outcome) (failed : list str) (ss : list str) : outcome :=
+  match ss with
+  | [] => NotFound failed
+  | s :: ss' =>
+      match g failed s with
+      | Found v => Found v
+      | Bail => Bail
+      | NotFound fl => fold_st g fl ss'
+      end
+  end.
+
+Fixpoint map_member_fail_m (sel : bclass -> mtable) (fuel : nat) (R : bremap) (I : inh) (k : key)
+         (path failed : list str) (owner : str) : outcome :=
+  match fuel with
+  | O => Bail
+  | S f =>
+      if existsb (str_eqb owner) path then Bail
+      else if existsb (str_eqb owner) failed then NotFound failed
+      else
+      match declared sel R owner k with
+      | Some v => Found v
+      | None =>
+          match supers I owner with
+          | Some ss =>
+              match fold_st (fun fl s => map_member_fail_m sel f R I k (owner :: path) fl s) failed ss with
+              | NotFound fl => NotFound (owner :: fl)
+              | o => o
+              end
+          | None => NotFound (owner :: failed)
+          end
+      end
+  end.
+
+Definition outcome_res (o : outcome) : res (option key) :=
+  match o with Found v => Ok (Some v) | Bail => Err | NotFound _ => Ok None end.
+
+Definition map_member_fail (sel : bclass -> mtable) (fuel : nat) (R : bremap) (I : inh)
+           (owner : str) (k : key) : res (option key) :=
+  outcome_res (map_member_fail_m sel fuel R I k [] [] owner).
 
 (* map_field / map_method: unchanged name with remapped descriptor when nothing was found *)
 Definition map_member (sel : bclass -> mtable) (fuel : nat) (R : bremap) (I : inh)
@@ -191,7 +253,8 @@ Definition map_member (sel : bclass -> mtable) (fuel : nat) (R : bremap) (I : in
   | Ok None => match b_map_desc R (snd k) with Ok d => Ok (fst k, d) | Err => Err end
   end.
 
-(* enough for every acyclic provider (Theory: acyclic_fuel) *)
+(* enough for every provider: the classes on a path are pairwise distinct keys of the provider
+   (Theory5: fuel_never_runs_out) *)
 Definition default_fuel (I : inh) : nat := S (length I).
 
 Definition map_field_fail R I o k := map_member_fail b_fields (default_fuel I) R I o k.
